@@ -2772,9 +2772,25 @@ breaker('C14', 'weakref-foreign-db-unchecked', 'C14.R13', 'ZODB/serialize.py',
         '''                    if False:''')
 breaker('C04', 'begin-explicit-tid-not-basis', 'C04.R11', BSPY,
         'BaseStorage.tpc_begin',
-        '''                self._ts = TimeStamp(tid)
+        '''                ts = TimeStamp(tid)
+                if self._ts is None or ts > self._ts:
+                    self._ts = ts
                 self._tid = tid''',
         '''                self._tid = tid''')
+breaker('C04', 'begin-explicit-tid-moves-the-basis-back', 'C04.R11', BSPY,
+        'BaseStorage.tpc_begin',
+        '''                ts = TimeStamp(tid)
+                if self._ts is None or ts > self._ts:
+                    self._ts = ts
+                self._tid = tid''',
+        '''                self._ts = TimeStamp(tid)
+                self._tid = tid''')
+twin('C04', 'begin-explicit-tid-basis-guard-flipped', BSPY,
+     'BaseStorage.tpc_begin',
+     '''                if self._ts is None or ts > self._ts:
+                    self._ts = ts''',
+     '''                if not (self._ts is not None and self._ts >= ts):
+                    self._ts = ts''')
 breaker('C13', 'is-blob-record-cheap-test-first', 'C13.R16', BLOBPY,
         'BlobStorageMixin.is_blob_record',
         '''        if record:''',
